@@ -150,6 +150,10 @@ def run(ctx, rep):
                           '%s: %s: the returned run starts at clusters that were already given back, and extends into '
                           'clusters owned by something else' % (fn, detail))
     grant_rule(f, P, rep, 'C08.6')
+    # an evicted slice that an allocator still holds is updated as an orphan: its increments are lost and the clusters are
+    # handed out again
+    from . import evict
+    evict.report(f, rep, 'C08.10', evict.find_pops(f, P))
     from . import rollback
     rollback.report(f, P, rep, 'C08.7', ('restore',))
     # C08.3
